@@ -31,6 +31,8 @@ def fill_byte(addr: int, k: int) -> int:
     b = ((x >> 7) ^ (x >> 15) ^ (x >> 23)) & 0xFF
     if (k & 0x100) and 0x100000 <= addr < 0x100100:
         return b & 0x0F
+    if (k & 0x200) and 0x100000 <= addr < 0x100100:
+        return (((b >> 4) % 10) << 4) | ((b & 0x0F) % 10)
     return b
 
 
